@@ -31,7 +31,7 @@ import build_impl  # noqa: E402
 from gen import Gen, reg_lines, unreg_lines  # noqa: E402
 
 PYTHON = os.environ.get('VERIF_PYTHON', '/venv/bin/python')
-ALL_TRANSLATORS = ['hash_fields', 'node_fields', 'twins', 'fresh', 'swallow', 'access']
+ALL_TRANSLATORS = ['hash_fields', 'node_fields', 'twins', 'fresh', 'swallow', 'access', 'locks']
 ALLOWED_AXIOMS = {'propext', 'Classical.choice', 'Quot.sound'}
 FORBIDDEN = re.compile(r'\bsorry\b|\badmit\b|^\s*axiom\s|\bnative_decide\b|\bbv_decide\b|'
                        r'implemented_by|\bunsafe\s|maxHeartbeats\s+0\b', re.M)
